@@ -320,14 +320,15 @@ func init() {
 		os.Exit(0)
 	}
 	register(&Driver{
-		Name:     "lqflow",
-		Header:   "From ZenoV Require Import Lib.Harness Lib.Hex Queue.HopsPath Queue.Batcher Queue.LqDb Queue.QueueHarness.\nOpen Scope Z_scope.\n",
-		CaseType: "qcase",
-		Footer:   "\nDefinition DIFF := Eval vm_compute in qdiffs cases.\nPrint DIFF.\nDefinition MON := Eval vm_compute in qmons cases.\nPrint MON.\n",
-		Rule:     "one case = one run of the real lq source (lq.Start: consumer, producer, finisher goroutines) in its own process on a scratch lq.db: workers 1..12, 2..130 outlinks produced in 1..3 rounds (texts from a pool incl. duplicates inside a round, duplicates of rows still waiting or claimed, re-adds after the row was finished and deleted, unparsable and non-UTF-8 texts; differing via/hops on duplicates), rounds separated by waits for the timer flush / for claims and deletes, seeds finished (0..2 children) or held by a plan; in ~25% of the cases the outlinks are what the REAL preprocess/postprocess return for a seed tree with a scripted archiver (page behind 0..3 redirects, links in the page's HTML and/or in the JSON document of a child asset); observed through the lq.added / lq.claimed / lq.deleted hook points, the reactor output and the table read back at the end; distinct by input; non-trivial when some produced text was already in the table (skipped) AND some row was claimed and deleted AND a size-triggered (100) or a timer-triggered batch of >= 2 URLs was added",
-		Gen:      genLQFlow,
-		Exec:     execLQFlow,
-		Shrink:   shrinkLQFlow,
+		Name:           "lqflow",
+		CaseTimeoutSec: 3600, // Exec of the first case waits for the child pool that pre-runs the whole batch
+		Header:         "From ZenoV Require Import Lib.Harness Lib.Hex Queue.HopsPath Queue.Batcher Queue.LqDb Queue.QueueHarness.\nOpen Scope Z_scope.\n",
+		CaseType:       "qcase",
+		Footer:         "\nDefinition DIFF := Eval vm_compute in qdiffs cases.\nPrint DIFF.\nDefinition MON := Eval vm_compute in qmons cases.\nPrint MON.\n",
+		Rule:           "one case = one run of the real lq source (lq.Start: consumer, producer, finisher goroutines) in its own process on a scratch lq.db: workers 1..12, 2..130 outlinks produced in 1..3 rounds (texts from a pool incl. duplicates inside a round, duplicates of rows still waiting or claimed, re-adds after the row was finished and deleted, unparsable and non-UTF-8 texts; differing via/hops on duplicates), rounds separated by waits for the timer flush / for claims and deletes, seeds finished (0..2 children) or held by a plan; in ~25% of the cases the outlinks are what the REAL preprocess/postprocess return for a seed tree with a scripted archiver (page behind 0..3 redirects, links in the page's HTML and/or in the JSON document of a child asset); observed through the lq.added / lq.claimed / lq.deleted hook points, the reactor output and the table read back at the end; distinct by input; non-trivial when some produced text was already in the table (skipped) AND some row was claimed and deleted AND a size-triggered (100) or a timer-triggered batch of >= 2 URLs was added",
+		Gen:            genLQFlow,
+		Exec:           execLQFlow,
+		Shrink:         shrinkLQFlow,
 	})
 }
 
